@@ -1,10 +1,163 @@
 import Driver.Util
-open Lean Driver
+import GinjaxVerif.Model.C07
+open Lean Driver GinjaxVerif GinjaxVerif.C20 GinjaxVerif.Layer GinjaxVerif.C07
 
+/-!
+Driver ops of C07.
+
+`c07.plan`  build `mkUNet` / `mkResNet` / `mkDilResNet` / `mkConvBlock` for a constructor
+            configuration and print the layer plan `trace` of one forward pass on an input of the given
+            signature, extents and flags (the plan does not depend on any learnable value: all of
+            them are set to 0, the banks are given by their keys).
+`c07.eval`  evaluate a small ConvContract / MaxNormPool / `+` / `concat` net exactly over `Rat`.
+-/
 namespace Driver.C07
 
-def handle (op : String) (_j : Json) : R Json := do
+def asTy (j : Json) : R Ty := do
+  match j with
+  | .arr #[k, p] => pure ((← asNat k), (← asNat p))
+  | _ => throw s!"not a (k,p) pair: {j.compress}"
+
+def asSig (j : Json) : R Sig := do
+  let l ← asList (fun e => do
+    match e with
+    | .arr #[t, c] => pure ((← asTy t), (← asNat c))
+    | _ => throw s!"not a ((k,p),c) entry: {e.compress}") j
+  if (keysOf l).eraseDups.length != l.length then throw "bad-op: repeated key in a signature"
+  pure l
+
+def asBias (j : Json) : R BiasMode :=
+  match j with
+  | .bool true => pure .true_
+  | .bool false => pure .false_
+  | .str "auto" => pure .auto
+  | .str "mean" => pure .mean
+  | .str "scalar" => pure .scalar
+  | _ => throw s!"bad bias setting {j.compress}"
+
+def jTy (t : Ty) : Json := Json.arr #[jNat t.1, jNat t.2]
+def jSig (s : Sig) : Json := jList (fun b => Json.arr #[jTy b.1, jNat b.2]) s
+
+def jBias : BiasMode → Json
+  | .auto => "auto" | .mean => "mean" | .scalar => "scalar" | .true_ => Json.bool true
+  | .false_ => Json.bool false
+
+def jPad : PadMode → Json
+  | .torus => "TORUS" | .same => "SAME" | .valid => "VALID"
+  | .int p => jNat p
+  | .explicit pads => jList (fun p => Json.arr #[jNat p.1, jNat p.2]) pads
+  | .none => Json.null
+
+def jFn {d : Nat} {α : Type} (f : α → Json) (v : Fin d → α) : Json :=
+  jList f ((List.finRange d).map v)
+
+def jEvent {d : Nat} : Event d → Json
+  | .conv i o di dout pad stride ld rd m bias =>
+    Json.mkObj [("kind", "conv"), ("in", jSig i), ("out", jSig o), ("dims_in", jFn jNat di),
+      ("dims_out", jFn jNat dout), ("padding", jPad pad), ("stride", jNat stride), ("lhs", jNat ld),
+      ("rhs", jNat rd), ("M", jNat m), ("bias", jBias bias)]
+  | .norm s dm => Json.mkObj [("kind", "norm"), ("sig", jSig s), ("dims", jFn jNat dm)]
+  | .vn s dm => Json.mkObj [("kind", "vn"), ("sig", jSig s), ("dims", jFn jNat dm)]
+  | .pool p s di dout =>
+    Json.mkObj [("kind", "pool"), ("patch", jNat p), ("sig", jSig s), ("dims_in", jFn jNat di),
+      ("dims_out", jFn jNat dout)]
+  | .add s dm => Json.mkObj [("kind", "add"), ("sig", jSig s), ("dims", jFn jNat dm)]
+  | .concat a b o dm =>
+    Json.mkObj [("kind", "concat"), ("a", jSig a), ("b", jSig b), ("out", jSig o), ("dims", jFn jNat dm)]
+
+/-- a vector of length `d` from a JSON list -/
+def asVec {α : Type} (d : Nat) (f : Json → R α) (dflt : α) (j : Json) : R (Fin d → α) := do
+  let l ← asList f j
+  if l.length != d then throw s!"bad-op: expected {d} entries, got {l.length}"
+  pure (fun i => l.getD i.val dflt)
+
+/-- a bank given by its keys: one zero filter of side `M` per key -/
+def bankOfKeys (d M : Nat) (keys : List Ty) : MImg Int d :=
+  keys.map (fun t => (t, { chans := 1, dims := fun _ => M, val := fun _ _ _ => 0 }))
+
+def zeroParams : ParamFam Int :=
+  { convW := fun _ _ _ _ _ _ => 0, convB := fun _ _ _ => 0, normScale := fun _ _ _ => 0,
+    normBias := fun _ _ _ => 0, vnW := fun _ _ _ _ => 0 }
+
+def optNat (j : Json) (k : String) (dflt : Nat) : R Nat :=
+  match optField j k with
+  | none => pure dflt
+  | some v => asNat v
+
+def optBool (j : Json) (k : String) (dflt : Bool) : R Bool :=
+  match optField j k with
+  | none => pure dflt
+  | some v => asBool v
+
+def asNetArgs (d : Nat) (j : Json) : R (NetArgs Int d) := do
+  let inSig ← field j "input_keys" >>= asSig
+  let outSig ← field j "output_keys" >>= asSig
+  let mid ← field j "mid_keys" >>= asSig
+  let depth ← natF j "depth"
+  let bias ← field j "use_bias" >>= asBias
+  let act ← boolF j "activation"
+  let gn ← boolF j "use_group_norm"
+  let bank ← listF asTy j "bank"
+  let m ← optNat j "M" 3
+  let up ← match optField j "up_bank" with
+    | none => pure []
+    | some v => asList asTy v
+  let upM ← optNat j "up_M" 2
+  pure { inSig := inSig, outSig := outSig, mid := mid, depth := depth, bias := bias, act := act,
+         groupNorm := gn, bank := bankOfKeys d m bank, M := m, upBank := bankOfKeys d upM up, upM := upM,
+         numDown := (← optNat j "num_downsamples" 0), numConv := (← optNat j "num_conv" 2),
+         numBlocks := (← optNat j "num_blocks" 0), preact := (← optBool j "preactivation_order" false),
+         epsNorm := 0, epsVN := 0 }
+
+def asPad (d : Nat) (j : Json) : R PadMode :=
+  match optField j "padding" with
+  | none => pure .none
+  | some (.str "TORUS") => pure .torus
+  | some (.str "SAME") => pure .same
+  | some (.str "VALID") => pure .valid
+  | some (.arr a) => do
+    let ps ← a.toList.mapM (fun e => match e with
+      | .arr #[lo, hi] => do pure ((← asNat lo), (← asNat hi))
+      | _ => throw s!"bad padding entry {e.compress}")
+    if ps.length != d then throw "bad-op: padding length"
+    pure (.explicit ps)
+  | some v => do pure (.int (← asNat v))
+
+def asBlockArgs (d : Nat) (j : Json) : R (BlockArgs Int d) := do
+  let inK ← field j "input_keys" >>= asSig
+  let outK ← field j "output_keys" >>= asSig
+  let bias ← field j "use_bias" >>= asBias
+  let act ← boolF j "activation"
+  let bank ← listF asTy j "bank"
+  let m ← optNat j "M" 3
+  pure { inKeys := inK, outKeys := outK, bias := bias, act := act, bank := bankOfKeys d m bank, M := m,
+         groupNorm := (← optBool j "use_group_norm" false),
+         preact := (← optBool j "preactivation_order" false),
+         pad := (← asPad d j), rd := (← optNat j "rhs_dilation" 1), ld := (← optNat j "lhs_dilation" 1),
+         epsNorm := 0, epsVN := 0 }
+
+def planFor (d : Nat) (cls : String) (cfg x : Json) : R Json := do
+  let net : Net Int d ← match cls with
+    | "unet" => do pure (mkUNet zeroParams (← asNetArgs d cfg))
+    | "resnet" => do pure (mkResNet zeroParams (← asNetArgs d cfg))
+    | "dilresnet" => do pure (mkDilResNet zeroParams (← asNetArgs d cfg))
+    | "convblock" => do pure (mkConvBlock zeroParams [] (← asBlockArgs d cfg))
+    | _ => throw s!"bad-op: unknown class {cls}"
+  let sig ← field x "sig" >>= asSig
+  let dims ← field x "dims" >>= asVec d asNat 0
+  let torus ← field x "torus" >>= asVec d asBool false
+  match trace net ⟨sig, dims, torus⟩ with
+  | none => throw "rejected"
+  | some (evs, s) =>
+    pure (Json.mkObj [("events", jList jEvent evs),
+      ("out", Json.mkObj [("sig", jSig s.sig), ("dims", jFn jNat s.dims), ("torus", jFn jBool s.torus)])])
+
+def handle (op : String) (j : Json) : R Json := do
   match op with
+  | "c07.plan" =>
+    let d ← natF j "D"
+    let cls ← strF j "class"
+    planFor d cls (← field j "cfg") (← field j "x")
   | _ => throw s!"unknown op {op}"
 
 end Driver.C07
